@@ -1,0 +1,18 @@
+//go:build verif
+
+// Contracts (machine-checked by /verif/engine, see /verif/DESIGN.md). Comment-only file.
+package plugin
+
+// ---- C07: plugin message framing --------------------------------------------------------------------------------
+// Channel String (modernised from 1.13), then the body: raw rest from 1.8, the 1.7 length-prefixed array (Forge
+// extended short allowed) before.
+//@ func (*Message).Encode
+//@   props C07
+//@   at-call GreaterEqual#1 as g13: assert arg0 == c.Protocol && arg1 == version.Minecraft_1_13
+//@   at-call TransformLegacyToModernChannel as tr: assert called(g13) && res(g13) && streq(arg0, p.Channel)
+//@   at-call WriteString#1 as chModern: assert called(tr) && streq(arg1, res(tr))
+//@   at-call WriteString#2 as chLegacy: assert called(g13) && !res(g13) && streq(arg1, p.Channel)
+//@   at-call GreaterEqual#2 as g18: assert arg0 == c.Protocol && arg1 == version.Minecraft_1_8
+//@   at-call Write as rawBody: assert [raw-rest-from-1.8] called(g18) && res(g18) && ref(arg1) == ref(p.Data) && len(arg1) == len(p.Data)
+//@   at-call WriteBytes17 as framed: assert [1.7-framing-with-forge-extension] called(g18) && !res(g18) && ref(arg1) == ref(p.Data) && len(arg1) == len(p.Data) && arg2
+//@   ensures [channel-then-body] err == nil ==> (called(chModern) || called(chLegacy)) && (called(rawBody) || called(framed))
